@@ -36,6 +36,24 @@ cdef str only_wide(wide_t v):
 cdef str padded_wide(wide_t v):
     return f"{v:020d}"
 '''
+# the other order: an external typedef that is really NARROWER than its declared base is formatted first, a plain int afterwards - the plain int
+# must still reach a helper whose parameter type is int (a helper cached on the shared base type by the typedef would convert it to signed char)
+CATALOGUE2 = '''# cython: language_level=3
+cdef extern from *:
+    """
+    typedef signed char tiny_t;
+    """
+    ctypedef int tiny_t
+
+cdef str first_tiny(tiny_t t):
+    return f"{t:d}"
+
+cdef str later_int(int v):
+    return f"{v:5d}"
+
+cdef str later_int_hex(int v):
+    return f"{v:08X}"
+'''
 TEXT = z3.Function("formatted_text_object", z3.IntSort(), z3.IntSort(), z3.IntSort(), z3.IntSort(), z3.IntSort())
 G_WIDE = "ghost.text_of_wide_field"
 
@@ -110,7 +128,41 @@ def units(tier):
         u.replay = _native
         u.concrete_search = lambda ob, regions=(): _native({}, ob)
         us.append(u)
+    for name, fmt_args in (("later_int", (5, 32, 100)), ("later_int_hex", (8, 48, 88))):
+        u = L3Unit("L3fmtcall.%s" % name, {"C18": None}, CATALOGUE2, name, callees=AnyFrom({"__Pyx_PyUnicode_From_": FromInt()}),
+                   ensures=[("the text of a plain int field is format(v, spec) of the FULL int value, also after an external typedef of a narrower real type was formatted",
+                             _post(fmt_args))],
+                   options={"merge": False},
+                   subject={"mechanism": "PyrexTypes.CIntLike.convert_to_pystring (what is cached on the shared base type)"})
+        u.exec_cls = O.CExecPyObj
+        u.replay = _native2
+        u.concrete_search = lambda ob, regions=(): _native2({}, ob)
+        us.append(u)
     return us
+
+
+def _native2(model, ob=None):
+    import os
+    import subprocess
+    text = CATALOGUE2 + "\ndef py_later_int(v): return later_int(v)\ndef py_later_int_hex(v): return later_int_hex(v)\n"
+    try:
+        ctext, cfile = cextract.compile_pyx(text, name="dvfmtcallrep2")
+    except Exception as ex:
+        return {"confirmed": False, "note": "compile failed: %r" % ex}
+    d = os.path.dirname(cfile)
+    p = subprocess.run(["clang", "-shared", "-fPIC", "-O0", "-w", "-I" + cextract.PY_INCLUDE, cfile, "-o", os.path.join(d, "dvfmtcallrep2.so")],
+                       capture_output=True, text=True)
+    if p.returncode != 0:
+        return {"confirmed": False, "note": "build failed " + p.stderr[-300:]}
+    code = ("import sys; sys.path.insert(0, %r); import dvfmtcallrep2 as m\nbad = []\n"
+            "for v in (0, 5, -5, 127, 128, 1000, -129, 2**31 - 1, -2**31):\n"
+            "    for got, want in ((m.py_later_int(v), f'{v:5d}'), (m.py_later_int_hex(v), f'{v:08X}')):\n"
+            "        if got != want: bad.append((v, got, want))\nprint(bad[:3]); print(len(bad))\n" % d)
+    r = subprocess.run(["/venv/bin/python", "-c", code], capture_output=True, text=True, timeout=120)
+    out = r.stdout.strip().splitlines()
+    return {"inputs": "f-string fields on a plain int (values around 127 / 128 / 1000 / 2**31) formatted after an external typedef that is really a signed char",
+            "actual": (r.stdout.strip() or r.stderr[-300:])[:400], "confirmed": len(out) == 2 and out[0] != "[]", "obligation": getattr(ob, "name", None),
+            "how": "catalogue compiled by the working-tree compiler; texts compared with CPython's f-strings"}
 
 
 REGIONS = {}
